@@ -238,6 +238,18 @@ def setMpNexthop (b : B N) : NextHopArg → Option (B N)
                          | some (l, _) => some (l, nh)
                          | none => some ([], nh) }
 
+/-- mirrors `set_nexthop_ll_addr` (update_builder.rs:180, 900) after the fix: without
+an MP_REACH_NLRI builder one is made with the next hop `Ipv6LL(::, addr)`; a
+held IPv6 (or IPv6 + link-local) next hop becomes `Ipv6LL`; any other held next
+hop is refused with `IllegalCombination` (before the fix: `unreachable!()`);
+`none` is the `Err` -/
+def setNexthopLl (b : B N) : Option (B N) :=
+  match b.ann with
+  | none => some { b with ann := some ([], .ll) }
+  | some (l, .v6) => some { b with ann := some (l, .ll) }
+  | some (l, .ll) => some { b with ann := some (l, .ll) }
+  | some _ => none
+
 /-- number of NLRI held: the termination measure -/
 def nlriCount (b : B N) : Nat :=
   (match b.wd with | some l => l.length | none => 0) +
